@@ -376,3 +376,9 @@ def pbc_spec_row(row, Hm, G, p, d):
     m = _vecmat(row, G, d)
     x = [sv.sub(m[k], sv.mul(sv.rint(m[k]), p[k])) for k in range(d)]
     return _vecmat(x, Hm, d)
+
+
+MANIFEST = {
+    "text": 'remove_pbc (real AST, re-read every run), for d in {2,3}, input shape (n,d) with symbolic n (at a symbolic row) or (d,), every cell matrix with det != 0 (general and diagonal), every periodicity mask in {0,1}^d (enumerated): result - r is minus the sum of rint(m_k) ppp_k H[k,:] with m = r H^-1 (integer multiples of periodic cell vectors only); the fractional coordinates of the result are m_k - rint(m_k) ppp_k (in [-1/2,1/2] for periodic axes by the rint lemma, untouched otherwise); shift invariance away from ties, idempotence and oddness by a second symbolic run of the real body on the transformed input; shortest image for diagonal cells; inputs not written. Rational-function identities are decided by the ring normaliser (normal form), rounding lemmas by SMT (linear integer/real arithmetic).',
+    "note": 'floats as reals (A1); assumed contracts of np.linalg.inv (adjugate/det, requires det != 0), np.rint (round half to even), np.dot, np.array; the ring normaliser pyvc/ring.py and the rewrite step (a proved lemma instance applied to a matching atom) are trusted; refutations are exact rational assignments replayed on the real function',
+}
